@@ -3,6 +3,7 @@ package rules
 import (
 	"bytes"
 	"fmt"
+	"path/filepath"
 	"testing"
 
 	"github.com/elastic/go-libaudit/v2/rule"
@@ -21,6 +22,16 @@ var hC07 = hx.New("C07", "the C06 rule grammar restricted as the property says (
 func genC07(rt *rapid.T) rulegen.Spec {
 	o := genOpts()
 	o.Strict = true
+	if rapid.IntRange(0, 9).Draw(rt, "watchshaped") == 0 {
+		// a syscall rule that is printed in the -w form: dir= an existing directory or a link to one, path=
+		// anything that is not a directory (stat follows symbolic links)
+		if rapid.Bool().Draw(rt, "asdir") {
+			return rulegen.GenWatchShaped(rt, o, "dir", rapid.SampledFrom([]string{filepath.Join(scratchDir, "link-to-dir"), scratchDir,
+				filepath.Join(scratchDir, "sub"), filepath.Join(scratchDir, "link-to-link"), "/"}).Draw(rt, "existingdir"))
+		}
+		return rulegen.GenWatchShaped(rt, o, "path", rapid.SampledFrom([]string{filepath.Join(scratchDir, "link-to-file"), scratchFile,
+			filepath.Join(scratchDir, "link-to-nothing"), filepath.Join(scratchDir, "missing")}).Draw(rt, "nondir"))
+	}
 	s := rulegen.GenSpec(rt, o)
 	hasPerm := false
 	for _, f := range s.Filters {
@@ -29,16 +40,19 @@ func genC07(rt *rapid.T) rulegen.Spec {
 		}
 	}
 	if hasPerm {
-		// watch-shaped rules must agree with the filesystem (the -w form re-derives path/dir by stat)
+		// watch-shaped rules must agree with the filesystem (the -w form re-derives path/dir by stat, which
+		// follows symbolic links): dir= an existing directory or a link to one, path= anything else
+		dirs := []string{scratchDir, filepath.Join(scratchDir, "link-to-dir"), filepath.Join(scratchDir, "sub"), filepath.Join(scratchDir, "link-to-link")}
+		files := []string{scratchFile, filepath.Join(scratchDir, "link-to-file"), filepath.Join(scratchDir, "link-to-nothing"), filepath.Join(scratchDir, "missing")}
 		for i := range s.Filters {
 			f := &s.Filters[i]
 			switch {
 			case f.C:
 			case f.LHS == "dir":
-				f.RHS = []byte(scratchDir)
+				f.RHS = []byte(rapid.SampledFrom(dirs).Draw(rt, "existingdir"))
 				f.Val = uint32(len(f.RHS))
 			case f.LHS == "path":
-				f.RHS = []byte(scratchFile)
+				f.RHS = []byte(rapid.SampledFrom(files).Draw(rt, "nondir"))
 				f.Val = uint32(len(f.RHS))
 			}
 		}
